@@ -67,6 +67,16 @@ def _scan(prefix, ns, out, depth):
             continue
         key = f"{prefix}.{name}"
         try:
+            # (added for C18e, additive) DEFAULT ARGUMENT VALUES of the module's functions are evaluated once: a mutable
+            # default that a function updates in place (`def f(kw, options={...}): options.update(kw)`) is process-wide state
+            fn = getattr(obj, "py_func", obj)
+            if isinstance(fn, types.FunctionType) and getattr(fn, "__module__", None) == prefix.split(":")[0]:
+                for i, dv in enumerate(fn.__defaults__ or ()):
+                    if _is_container(dv):
+                        out[f"{key}:default[{i}]"] = _digest(dv)
+                for dk, dv in (fn.__kwdefaults__ or {}).items():
+                    if _is_container(dv):
+                        out[f"{key}:kwdefault[{dk}]"] = _digest(dv)
             if _is_container(obj):
                 out[key] = _digest(obj)
             elif obj is None or isinstance(obj, (tuple, frozenset, bool, int, float, complex, str, bytes)):
